@@ -34,27 +34,34 @@ def praatio():
 # --------------------------------------------------------------------------- embeddings
 
 class Emb:
-    """Pure scaling of the integer grid: g(k) = float(k * step), step an exact decimal."""
+    """Scaling of the integer grid: g(k) = float(base + k * step), step and base exact decimals; durations scale without
+    the base (gd).  base = 0 for every embedding but 'far' (times near 2000 s on a microsecond grid: neighbouring grid
+    times are closer than 1e-9 relative - where "equal within a relative tolerance" and "equal" part ways)."""
 
-    def __init__(self, name, step):
+    def __init__(self, name, step, base="0"):
         self.name = name
         self.step = Decimal(step)
+        self.base = Decimal(base)
         self.fstep = Fraction(self.step)
-        self.dyadic = (self.fstep.denominator & (self.fstep.denominator - 1)) == 0
+        self.fbase = Fraction(self.base)
+        self.dyadic = (self.fstep.denominator & (self.fstep.denominator - 1)) == 0 and self.base == 0
 
     def g(self, k):
-        return float(self.step * k)
+        return float(self.base + self.step * k)
+
+    def gd(self, d):
+        return float(self.step * d)
 
     def inv(self, x):
         """Returns (k, ongrid): the grid index nearest to float x and whether x is within rounding of g(k)."""
         if not isinstance(x, (int, float)) or isinstance(x, bool) or math.isnan(x) or math.isinf(x):
             return -999999, False
         fx = Fraction(x)
-        k = round(fx / self.fstep)
+        k = round((fx - self.fbase) / self.fstep)
         if abs(k) > 2000000000:
             return -999999, False
         gk = self.g(k)
-        tol = 0.0 if self.dyadic else 1e-9 * max(float(self.step), abs(x), abs(gk))
+        tol = 0.0 if self.dyadic else 1e-3 * float(self.step) if self.base != 0 else 1e-9 * max(float(self.step), abs(x), abs(gk))
         return k, abs(x - gk) <= tol
 
 
@@ -66,6 +73,7 @@ EMBS = {
     "tiny": Emb("tiny", "0.003"),
     "ms": Emb("ms", "0.001"),
     "cs": Emb("cs", "0.01"),
+    "far": Emb("far", "0.000001", base="2000"),      # only for operations that have no absolute origin (see checks_tier.FAR_OK)
 }
 
 POOLS = {
@@ -117,6 +125,34 @@ def mk_tier(t, emb, pool):
         return textgrid.IntervalTier(t["name"], ents, emb.g(t["lo"]), emb.g(t["hi"]))
     ents = [(emb.g(x["t"]), lab_out(x["l"], pool)) for x in t["ents"]]
     return textgrid.PointTier(t["name"], ents, emb.g(t["lo"]), emb.g(t["hi"]))
+
+
+def mk_tier_primed(t, emb, pool):
+    """The same tier, reached through a short history instead of the constructor alone: built with one extra entry in a free
+    slot, every read-only view looked at once (whatever an implementation may memoise is now filled), then the extra entry
+    deleted in place.  A well-formed tier is a well-formed tier however it came about."""
+    if t["kind"] == "I":
+        edges = [t["lo"]] + [v for x in t["ents"] for v in (x["s"], x["e"])] + [t["hi"]]
+        slot = next(((edges[i], edges[i + 1]) for i in range(0, len(edges), 2) if edges[i + 1] - edges[i] >= 1), None)
+        extra = None if slot is None else {"s": slot[0], "e": slot[1], "l": "zz"}
+    else:
+        used = set(x["t"] for x in t["ents"])
+        free = [k for k in range(t["lo"], t["hi"] + 1) if k not in used]
+        extra = {"t": free[len(free) // 2], "l": "zz"} if free else None
+    if extra is None:
+        tier = mk_tier(t, emb, pool)
+    else:
+        key = (lambda x: (x["s"], x["e"])) if t["kind"] == "I" else (lambda x: x["t"])
+        tier = mk_tier(dict(t, ents=sorted(t["ents"] + [extra], key=key)), emb, pool)
+    with contextlib.redirect_stdout(io.StringIO()):
+        _ = tier.timestamps, tier.entries, tier.find("zz"), tier.validate("silence"), tier == tier, tier.minTimestamp, tier.maxTimestamp
+        if t["kind"] == "I" and len(tier.entries):
+            _ = tier.getNonEntries()
+        if extra is not None:
+            lab = lab_out("zz", pool)
+            victim = [e for e in tier.entries if e[-1] == lab][0]
+            tier.deleteEntry(victim)
+    return tier
 
 
 class Proj:
@@ -224,14 +260,14 @@ def call_op(op, args, recv, arg, emb, pool):
     if op == "eraseRegion":
         return recv.eraseRegion(g(args["a"]), g(args["b"]), args["mode"], args["shrink"])
     if op == "insertSpace":
-        return recv.insertSpace(g(args["s"]), g(args["d"]), args["mode"])
+        return recv.insertSpace(g(args["s"]), emb.gd(args["d"]), args["mode"])
     if op == "spaceErase":
-        s, d = g(args["s"]), g(args["d"])
+        s, d = g(args["s"]), emb.gd(args["d"])
         return recv.insertSpace(s, d, args["mode"]).eraseRegion(s, s + d, "truncate", True)
     if op == "editTimestamps":
-        return recv.editTimestamps(g(args["o"]), args["mode"])
+        return recv.editTimestamps(emb.gd(args["o"]), args["mode"])
     if op == "editRoundTrip":
-        return recv.editTimestamps(g(args["o"]), "silence").editTimestamps(-g(args["o"]), "silence")
+        return recv.editTimestamps(emb.gd(args["o"]), "silence").editTimestamps(-emb.gd(args["o"]), "silence")
     if op == "insertEntry":
         kind = "I" if "s" in args["x"] else "P"
         entry = mk_entry(args["x"], kind, emb, pool)
@@ -255,7 +291,7 @@ def call_op(op, args, recv, arg, emb, pool):
     if op == "mergeLabels":
         return recv.mergeLabels(arg)
     if op == "dejitter":
-        return recv.dejitter(arg, g(args["D"]))
+        return recv.dejitter(arg, emb.gd(args["D"]))
     if op == "morph":
         f = args["filter"]
         if f == "all":
@@ -284,10 +320,12 @@ def run_vector(vec, emb, pool, eid, recv=None, arg=None):
     returns the event as the trace specification reads it."""
     textgrid, errors, _ = praatio()
     pj = Proj(emb, pool)
+    # one call in four starts from tiers that were reached through a history (see mk_tier_primed)
+    build = mk_tier_primed if eid % 4 == 1 and vec["op"] != "construct" else mk_tier
     if recv is None:
-        recv = mk_tier(vec["pre"], emb, pool)
+        recv = build(vec["pre"], emb, pool)
     if arg is None and vec["arg"]["kind"] != "none":
-        arg = mk_tier(vec["arg"], emb, pool)
+        arg = build(vec["arg"], emb, pool)
     pre = pj.tier(recv)
     argpre = pj.tier(arg) if arg is not None else NONE
     buf = io.StringIO()
